@@ -586,7 +586,10 @@ def check_gdist(case, ctx):
 def xoprob_case(draw):
     return {"map": draw(map_strategy()), "queries": draw(st.lists(QUERY, min_size=1, max_size=12)),
             "fn": draw(st.sampled_from(["haldane", "kosambi"])), "phased": draw(st.booleans()),
-            "ntaxa": draw(st.integers(1, 3)), "gseed": draw(st.integers(0, 2 ** 32 - 1))}
+            "ntaxa": draw(st.integers(1, 3)), "gseed": draw(st.integers(0, 2 ** 32 - 1)),
+            # the matrix may already carry genetic positions / crossover probabilities (from its constructor, a file, or an
+            # earlier interpolation with another map): the call must assign the ones of the map it is given
+            "prior": draw(st.sampled_from(["none", "none", "constructor", "earlier_map"]))}
 
 
 def check_xoprob(case, ctx):
@@ -601,16 +604,21 @@ def check_xoprob(case, ctx):
     n = int(case["ntaxa"])
     rng = numpy.random.default_rng(case["gseed"])
     tag = numpy.arange(p, dtype="int8") % 2        # column tag: follows its variant through the sort
+    prior = case.get("prior", "none")
+    ctx.label("prior_positions:" + prior)
+    extra = {}
+    if prior == "constructor":
+        extra = {"vrnt_genpos": 5.0 + 0.37 * numpy.arange(p, dtype="float64"), "vrnt_xoprob": numpy.full(p, 0.125)}
     if case["phased"]:
         mat = numpy.broadcast_to(tag, (2, n, p)).astype("int8") + 0 * rng.integers(0, 2, size=(2, n, p)).astype("int8")
         g = DensePhasedGenotypeMatrix(mat.copy(), vrnt_chrgrp=numpy.array([q[0] for q in qs], dtype="int64"),
                                       vrnt_phypos=numpy.array([q[1] for q in qs], dtype="int64"),
-                                      vrnt_name=numpy.array(["v%d" % i for i in range(p)], dtype=object))
+                                      vrnt_name=numpy.array(["v%d" % i for i in range(p)], dtype=object), **extra)
     else:
         mat = numpy.broadcast_to(tag, (n, p)).astype("int8")
         g = DenseGenotypeMatrix(mat.copy(), vrnt_chrgrp=numpy.array([q[0] for q in qs], dtype="int64"),
                                 vrnt_phypos=numpy.array([q[1] for q in qs], dtype="int64"),
-                                vrnt_name=numpy.array(["v%d" % i for i in range(p)], dtype=object))
+                                vrnt_name=numpy.array(["v%d" % i for i in range(p)], dtype=object), **extra)
     congruent = all(all(ys[i] <= ys[i + 1] for i in range(len(ys) - 1)) for xs, ys in model.values())
     kinds = [q[2] for q in qs]
     ctx.label(kind)
@@ -634,6 +642,12 @@ def check_xoprob(case, ctx):
     sq = [qs[i] for i in order]
     ctx.check(g.vrnt_chrgrp.tolist() == [q[0] for q in sq] and g.vrnt_phypos.tolist() == [q[1] for q in sq], "xoprob.grouping_sorts_variants")
 
+    if prior == "earlier_map":
+        # an earlier interpolation with a different map (all genetic positions stretched and shifted)
+        from pybrops.popgen.gmap.StandardGeneticMap import StandardGeneticMap as _SGM
+        other = _SGM(vrnt_chrgrp=numpy.array(m.vrnt_chrgrp), vrnt_phypos=numpy.array(m.vrnt_phypos),
+                     vrnt_genpos=3.0 * numpy.array(m.vrnt_genpos, dtype="float64") + 1.0)
+        g.interp_xoprob(other, f)
     g.interp_xoprob(m, f)
     gp, xo = g.vrnt_genpos, g.vrnt_xoprob
     ctx.check(isinstance(gp, numpy.ndarray) and gp.shape == (p,) and isinstance(xo, numpy.ndarray) and xo.shape == (p,), "xoprob.shape")
